@@ -99,6 +99,8 @@ def main():
                     elif r["status"] == "vacuous":
                         crash = (crash or "") + f"\nvacuity: no feasible exit path for {r['fn']} (contradictory requires/axioms?)"
                 src = r.get("source", {})
+                if a.show and os.environ.get("VERIF_PATHS"):
+                    print(r["fn"], *r.get("path_summary", []), sep="\n   ")
                 functions.append({"fn": r["fn"], "status": r["status"], "lines": src.get("lines"), "sha": src.get("sha"), "paths": r.get("paths"), "obligations": len(r["obligations"]), "queries": r.get("queries"), "detail": r.get("detail", "")[:300]})
             out = {
                 "present": True,
